@@ -32,6 +32,15 @@ Case layout (a case = a block of pipelines, pure function of (seed, n)):
                  partitions) x every partition with a shared class x 4 sharing modes x halt in {T,F}; plus sampled 2..5-stage
                  pipelines from the extended alphabet, each run twice. Mechanism keys get the suffix `:twin-stages`.
                  The MAPK blocks also add a second stage named like a tier; a third of the overlap configurations share names.
+  config blocks : "configuration sessions" - 1..3 long-lived, differently configured instances (every constructor option and
+                 public attribute at degenerate / extreme values, all modes, the AgentCascade path, raising observers,
+                 non-boolean gate verdicts, falsy / all-equal / shared-constant signals, the same input object twice) used
+                 alternately, sharing stage objects, mutated between runs through the public surface; every session is
+                 executed plain / with inverted silent flags / with reporting reads at callback entries / under a jumping
+                 virtual clock, every run judged, plain vs verbose and plain vs reads compared run by run; one LONG session
+                 (> 20 000 runs on one instance). See the comment above `CF`. Mechanism suffix `:config-session`.
+                 In ALL layers the mode is drawn from the members of the public mode enum and about a quarter of the
+                 cascades are not silent (stdout is a sink while a case runs).
   overlap blocks: ONE long-lived cascade object per configuration whose runs OVERLAP: (a) re-entrant - a checkpoint /
                  processor / error handler / on_stage_complete callback of a run calls run() on the same object (nesting
                  depth <= 3); (b) 2-3 real threads each calling run() under the controlled scheduler of rv.sched
@@ -43,10 +52,11 @@ Case layout (a case = a block of pipelines, pure function of (seed, n)):
                  (mechanism keys get the suffix `:overlapping-runs`). These cases are the last block so that the
                  scheduler's LINE hook is installed only after the single-run layers of a shard have finished.
 """
+import contextlib
 import sys
 import threading
 
-from rv import core, locks, sched
+from rv import core, locks, sched, vclock
 
 PID = "C19"
 LEVEL = "fault_enumeration"
@@ -56,7 +66,10 @@ TECHNIQUE = ("runtime monitoring: scripted logging stubs for every checkpoint/pr
              "several positions / callables shared between stages, stubs attributing every invocation to a pipeline "
              "position; overlapping runs of one cascade object driven "
              "re-entrantly from callbacks and from real threads under a line-granularity controlled scheduler, each "
-             "run judged against its own per-run log")
+             "run judged against its own per-run log; configuration sessions: long-lived instances with degenerate/extreme "
+             "options, raising observers, non-boolean gate verdicts, aliased/falsy/all-equal signals, mutated between runs, "
+             "each session also executed verbose / with interleaved reporting reads (differential) / under a jumping "
+             "virtual clock; one session with > 20 000 runs on one instance")
 RULE = ("sweep = every pipeline of 1..K stages (K=3 quick, K=4 thorough) over 48 behaviours per stage "
         "(checkpoint absent/pass/reject/raise x processor pass/raise x handler absent/recover/raise x required T/F) "
         "x halt_on_failure T/F, complete; 5-stage (and in quick 4-stage) pipelines are sampled from an extended alphabet; "
@@ -64,13 +77,26 @@ RULE = ("sweep = every pipeline of 1..K stages (K=3 quick, K=4 thorough) over 48
         "twin layer: 2..3-stage pipelines (thorough: ..4) over every name partition with a shared class x "
         "{equal names | one stage object at several positions | shared callables | shared callables, unique names}, "
         "complete over the stated alphabets, 2..5 stages sampled; "
+        "config layer: sampled sessions of 6..16 operations (62 % runs) on 1..3 instances x {plain, verbose, reads, clock}, "
+        "one session of 26 000 (thorough: 4 x 60 000) operations; "
         "non-trivial = a fault was injected and reached (a gate rejected or raised, or a processor raised); "
         "distinct = (stage count, halt setting, per-stage outcome vector, reported success)")
 ASSUMPTIONS = [
     "callbacks raise only Exception subclasses",
-    "checkpoints return real booleans (MAPK preset lambdas: truthiness)",
+    "a checkpoint 'returned true' = it returned a truthy value; a falsy value (False, 0, None, '', ...) is a rejection and a "
+    "return value whose truth value raises counts as a raising checkpoint",
     "a stage counts as completed when its processor returned or its own error handler returned a recovery value",
-    "amplification factors are finite and >= 0; run_parallel is outside the statement",
+    "amplification factors are finite and >= 0 (incl. 0.0, -0.0, denormals, ints, 1e308: products may overflow to inf, and "
+    "inf * 0.0 = nan is accepted when the same arithmetic gives nan); max_amplification >= 0 or inf; "
+    "calling run_parallel() directly is outside the statement, but run() is judged in EVERY mode the cascade can be configured with",
+    "an on_stage_complete / on_cascade_complete observer that raises is not a stage function: a stage whose processor "
+    "returned has completed; result rules of a run whose stage observer raised are reported under ONE mechanism key "
+    "(stage-observer-raise-taken-for-stage-failure); when run() raises after handing its result to on_cascade_complete, "
+    "that result is the reported one",
+    "stage timeouts are not part of the statement: a tree may fail a stage for exceeding timeout_seconds (never judged), "
+    "but time must not let a gated stage run unchecked or a halted pipeline continue",
+    "results must not depend on `silent` nor on calls of get_statistics / get_history / repr (differential, sessions whose "
+    "scripted exceptions have a raising __str__ excepted)",
     "'a run' is one invocation of Cascade.run: when runs of one Cascade object overlap (re-entrant call from a callback, or "
     "another thread), each returned result is judged against the callbacks invoked for that invocation only",
     "'every stage' = every position of the pipeline: stage names are labels (several stages may carry one), the same "
@@ -198,14 +224,16 @@ def decode(idx, K):
 # ---------------------------------------------------------------------------- plan
 def tier_params(tier):
     if tier == "quick":
-        return {"K": 3, "G": 96, "mapk_cases": 40, "mapk_per": 50, "rand_cases": 7000, "rand_per": 96,
+        return {"K": 3, "G": 96, "mapk_cases": 40, "mapk_per": 40, "rand_cases": 5200, "rand_per": 96,
                 "ov_cases": 320, "ov_per": 10, "ov_nested": 6, "ov_sched": 8,
                 "ov_sweep_cfgs": 1, "ov_sweep_max": 120,
-                "tw_alpha": [(2, 48), (3, 16)], "tw_G": 256, "tw_rand_cases": 600, "tw_rand_per": 96}
-    return {"K": 4, "G": 1024, "mapk_cases": 280, "mapk_per": 100, "rand_cases": 20000, "rand_per": 512,
+                "tw_alpha": [(2, 48), (3, 16)], "tw_G": 256, "tw_rand_cases": 600, "tw_rand_per": 96,
+                "cf_cases": 480, "cf_per": 10, "cf_long_cases": 1, "cf_long_ops": 26000}
+    return {"K": 4, "G": 1024, "mapk_cases": 280, "mapk_per": 40, "rand_cases": 20000, "rand_per": 512,
             "ov_cases": 1000, "ov_per": 20, "ov_nested": 8, "ov_sched": 12,
             "ov_sweep_cfgs": 3, "ov_sweep_max": 250,
-            "tw_alpha": [(2, 48), (3, 48), (4, 16)], "tw_G": 4096, "tw_rand_cases": 2000, "tw_rand_per": 256}
+            "tw_alpha": [(2, 48), (3, 48), (4, 16)], "tw_G": 4096, "tw_rand_cases": 2000, "tw_rand_per": 256,
+            "cf_cases": 2000, "cf_per": 20, "cf_long_cases": 4, "cf_long_ops": 60000}
 
 
 def n_sweep_cases(tp):
@@ -219,7 +247,8 @@ def plan(tier):
     ntw, total_tw = n_twin_sweep_cases(tp)
     quick = tier == "quick"
     return {
-        "cases": ns + tp["mapk_cases"] + tp["rand_cases"] + ntw + tp["tw_rand_cases"] + tp["ov_cases"],
+        "cases": ns + tp["mapk_cases"] + tp["rand_cases"] + ntw + tp["tw_rand_cases"] + tp["cf_long_cases"]
+                 + tp["cf_cases"] + tp["ov_cases"],
         "shards": 8 if quick else 14,
         "min_nontrivial": 1500,
         "timeout": 600 if quick else 2400,
@@ -235,7 +264,8 @@ def plan(tier):
             "runs_reported_success": 2000, "runs_reported_failure": 100000,
             "compositions_checked": 2000, "stages_recovered": 10000,
             "amplification_checked": 100000, "amplification_clamped": 5000,
-            "mapk_runs": 1500, "mapk_success": 300, "mapk_gate_rejected": 100, "mapk_gate_raised": 100,
+            "mapk_runs": 800, "mapk_success": 100, "mapk_gate_rejected": 100, "mapk_gate_raised": 40,
+            "mapk_runs_alternating_instances": 500, "mapk_presets_all_defaults": 25, "mapk_presets_not_silent": 80,
             "five_stage_pipelines": 5000,
             # overlapping runs of one cascade object (re-entrant + threads under the scheduler)
             "overlap_runs_judged": 10000, "overlap_thread_schedules": 3000, "overlap_thread_schedules_interleaved": 2000,
@@ -251,6 +281,21 @@ def plan(tier):
             "twin_runs_completed_twin_beside_uncompleted_twin": 5000,
             "twin_runs_all_stages_reached_one_twin_failed": 1000,
             "mapk_runs_with_duplicate_tier_name": 60,
+            # every layer: all members of the public mode enum, a share of the runs not silent
+            "runs_with_explicit_mode": 200000, "runs_not_silent": 70000,
+            # configuration sessions (long-lived differently configured instances used alternately, mutated between runs)
+            "cf_sessions": 900, "cf_runs": 25000, "cf_runs_reported_success": 10000,
+            "cf_differentials_verbose": 800, "cf_differentials_reads": 800, "cf_reporting_reads": 30000,
+            "cf_clock_jumps": 20000,
+            "cf_long_sessions": tp["cf_long_cases"], "max:runs_on_one_instance_in_one_session": 20000,
+            "cf_runs_with_non_bool_gate_verdict": 8000, "cf_runs_extreme_max_amplification": 5000,
+            "cf_runs_same_input_object_again": 3000, "cf_results_scribbled_after_the_call": 6000,
+            "cf_runs_stage_observer_scripted_to_raise": 4000, "stage_observer_raised": 2500,
+            "cf_runs_cascade_observer_raises": 2000,
+            "cf_sessions_several_instances": 2500, "cf_sessions_stage_object_shared_between_instances": 2000,
+            "cf_instances_AgentCascade": 1500, "cf_agent_stages": 600,
+            "cf_ops_remove_stage": 1500, "cf_ops_add_stage": 1000, "cf_ops_insert_stage": 1000,
+            "cf_ops_attribute_set": 3000, "cf_ops_stage_object_mutated": 4000,
         },
     }
 
@@ -280,14 +325,51 @@ def clamp_final(fs, mx):
 
 
 def close(a, b):
+    if a != a or b != b:          # nan (inf * 0.0 with max_amplification=inf): the same arithmetic gives nan on both sides
+        return a != a and b != b
     return a == b or abs(a - b) <= 1e-9 * max(1.0, abs(a), abs(b))
+
+
+class _Sink:
+    """stdout of the non-silent runs"""
+    encoding = "utf-8"
+
+    def write(self, s):
+        return len(s)
+
+    def flush(self):
+        pass
+
+
+SINK = _Sink()
+
+
+@contextlib.contextmanager
+def quiet():
+    old = sys.stdout
+    sys.stdout = SINK
+    try:
+        yield
+    finally:
+        sys.stdout = old
+
+
+_MODES = []
+
+
+def modes():
+    """every member of the public CascadeMode enum (whatever they are)"""
+    if not _MODES:
+        from operon_ai.topology.cascade import CascadeMode
+        _MODES.extend(list(CascadeMode))
+    return _MODES
 
 
 def render_log(log):
     out = []
     for (i, role, arg, oc, val) in log:
-        name = {"c": "checkpoint", "p": "processor", "h": "on_error"}[role]
-        if role == 'h':
+        name = {"c": "checkpoint", "p": "processor", "h": "on_error", "s": "on_stage_complete"}[role]
+        if role == 'h' or role == 's':
             a = type(arg).__name__
         else:
             a = repr(arg)
@@ -334,6 +416,17 @@ def judge(ctx, acc, meta, halt, maxamp, inp, log, res, describe, layer, msuf="",
     halt_reported = False
     hsuffix = "halt-on" if halt else "halt-off"
     pending = -1               # stage whose processor raised and whose handler has not been consulted yet
+    obs_raised = False         # an on_stage_complete observer raised in this run
+    obs_pending = -1           # stage whose completion observer raised just now
+
+    def derived(mech, what, w):
+        # result rules in a run whose stage observer raised: ONE key for the input class (the observer's exception is not
+        # a stage failure: the stage's processor had returned; what the cascade makes of it shows up in several result rules)
+        if obs_raised:
+            violation("stage-observer-raise-taken-for-stage-failure",
+                      "an on_stage_complete observer raised after a stage's processor had returned; then: " + what, w)
+        else:
+            violation(mech, what, w)
 
     def witness(extra=None):
         w = {"layer": layer, "pipeline": describe(), "input": repr(inp), "invocation_log": render_log(log),
@@ -353,6 +446,21 @@ def judge(ctx, acc, meta, halt, maxamp, inp, log, res, describe, layer, msuf="",
 
     for ev in log:
         i, role, arg, oc, val = ev
+        if role == 's':
+            # a notification: neither a checkpoint nor a processor, never judged by itself
+            acc["stage_observer_calls"] = acc.get("stage_observer_calls", 0) + 1
+            if oc == 'raise':
+                acc["stage_observer_raised"] = acc.get("stage_observer_raised", 0) + 1
+                obs_raised = True
+                obs_pending = i
+            continue
+        if obs_pending >= 0:
+            op_, obs_pending = obs_pending, -1
+            if role == 'h' and i == op_ and pending != i:
+                # the cascade consulted the stage's error handler about the observer's exception: not a stage function call
+                acc["handler_calls"] = acc.get("handler_calls", 0) + 1
+                acc["handler_consulted_for_observer_exception"] = acc.get("handler_consulted_for_observer_exception", 0) + 1
+                continue
         if pending >= 0 and not (role == 'h' and i == pending):
             fail_stage(pending, "processor-failed")
             pending = -1
@@ -462,10 +570,10 @@ def judge(ctx, acc, meta, halt, maxamp, inp, log, res, describe, layer, msuf="",
         bad = [i for i in range(n) if state[i] not in (DONE, RECOVERED)]
         if bad:
             i = bad[0]
-            violation("success-with-incomplete-stage:" + STATE_NAMES[state[i]],
+            derived("success-with-incomplete-stage:" + STATE_NAMES[state[i]],
                           "run reported successful although stage[%d] is %s" % (i, STATE_NAMES[state[i]]), witness())
         elif porder != list(range(n)):
-            violation("success-out-of-order",
+            derived("success-out-of-order",
                           "run reported successful but processors ran in order %r" % (porder,), witness())
         else:
             acc["compositions_checked"] = acc.get("compositions_checked", 0) + 1
@@ -474,11 +582,11 @@ def judge(ctx, acc, meta, halt, maxamp, inp, log, res, describe, layer, msuf="",
                 if procsig[i] is not out[i - 1]:
                     ok = False
             if not ok:
-                violation("stage-input-not-previous-output",
+                derived("stage-input-not-previous-output",
                               "successful run: a stage did not receive the previous stage's output (or the first stage "
                               "not the pipeline input)", witness())
             elif res.final_output is not out[n - 1]:
-                violation("final-output-not-composition",
+                derived("final-output-not-composition",
                               "successful run released %r, the composition of the stage functions is %r" % (
                                   res.final_output, out[n - 1]), witness())
     else:
@@ -537,11 +645,21 @@ def describe_scripted(comps, factors, halt, maxamp):
     return d
 
 
-def run_scripted(ctx, acc, comps, factors, halt, maxamp, layer, runs=1, build="add"):
-    """comps: list of (cp, proc, handler, required) behaviour indices."""
+def run_scripted(ctx, acc, comps, factors, halt, maxamp, layer, runs=1, build="add", mode=None, silent=True):
+    """comps: list of (cp, proc, handler, required) behaviour indices. `mode`: a CascadeMode member (None: the default);
+    `silent=False`: the run takes the printing branches (stdout is a sink)."""
     global LOG, CUR_INPUT
     from operon_ai.topology.cascade import Cascade, CascadeStage
-    casc = Cascade("c19", max_amplification=maxamp, halt_on_failure=halt, silent=True)
+    kw = {} if mode is None else {"mode": mode}
+    if silent:
+        kw["silent"] = True        # (not passing it = the default = verbose)
+    else:
+        acc["runs_not_silent"] = acc.get("runs_not_silent", 0) + runs
+    casc = Cascade("c19", max_amplification=maxamp, halt_on_failure=halt, **kw)
+    if mode is not None:
+        km = "runs_in_mode_%s" % getattr(mode, "name", mode)
+        acc[km] = acc.get(km, 0) + runs
+        acc["runs_with_explicit_mode"] = acc.get("runs_with_explicit_mode", 0) + runs
     meta = []
     stages = []
     for i, c in enumerate(comps):
@@ -563,7 +681,12 @@ def run_scripted(ctx, acc, comps, factors, halt, maxamp, layer, runs=1, build="a
         casc.insert_stage(j, stages[j])
         casc.remove_stage("decoy")
     FLIP.clear()
-    describe = describe_scripted(comps, factors, halt, maxamp)
+    base_describe = describe_scripted(comps, factors, halt, maxamp)
+
+    def describe():
+        d = base_describe()
+        d["mode"], d["silent"] = repr(mode), silent
+        return d
     state = None
     for r in range(runs):
         LOG = log = []
@@ -594,7 +717,8 @@ def case_sweep(ctx, n, tp):
         comps = [DEC[b] for b in codes]
         factors = [rng.choice(FACTORS) for _ in codes]
         maxamp = rng.choice(MAXAMPS)
-        state, res = run_scripted(ctx, acc, comps, factors, halt, maxamp, "sweep")
+        state, res = run_scripted(ctx, acc, comps, factors, halt, maxamp, "sweep",
+                                  mode=rng.choice(modes()), silent=rng.random() < 0.75)
         k = "sweep_pipelines_%d_stage" % len(codes)
         acc[k] = acc.get(k, 0) + 1
         if idx == pick and "sweep" not in _sampled and n >= 3 * ctx.nshards:
@@ -630,7 +754,8 @@ def case_random(ctx, n, tp):
         maxamp = rng.choice(MAXAMPS if plain else MAXAMPS_X)
         halt = rng.random() < 0.5
         build = "add" if rng.random() < 0.7 else rng.randrange(5)
-        state, res = run_scripted(ctx, acc, comps, factors, halt, maxamp, "random", runs=2, build=build)
+        state, res = run_scripted(ctx, acc, comps, factors, halt, maxamp, "random", runs=2, build=build,
+                                  mode=rng.choice([None] + modes()), silent=rng.random() < 0.75)
         if "random" not in _sampled and k == 5 and state[2] != NOT_REACHED:
             _sampled.add("random")
             ctx.sample({"layer": "random", "pipeline": describe_scripted(comps, factors, halt, maxamp)(),
@@ -765,14 +890,24 @@ def case_mapk(ctx, n, tp):
     from operon_ai.topology.cascade import MAPKCascade, CascadeStage
     rng = ctx.rng(n)
     acc = {}
+    prev = None          # the preset instance of the previous iteration (configured differently): used alternately
     for _ in range(tp["mapk_per"]):
-        tiers = [rng.choice([0.5, 1.0, 2.0, 10.0, 200.0]) for _ in range(3)]
-        maxamp = rng.choice([100.0, 1000.0, 5.0, 1e9])
+        tiers = [rng.choice([0.5, 1.0, 2.0, 10.0, 200.0, 0.0, 1, 3, 1e308]) for _ in range(3)]
+        maxamp = rng.choice([100.0, 1000.0, 5.0, 1e9, 0.0, 1, float("inf")])
         halt = rng.random() < 0.5
         variant = rng.choice(MAPK_VARIANTS)
         inp = mapk_input(rng)
-        casc = recording(MAPKCascade)("mapk", tiers[0], tiers[1], tiers[2], max_amplification=maxamp,
-                                      halt_on_failure=halt, silent=True)
+        mk_mode, mk_silent = rng.choice(modes()), rng.random() < 0.7
+        if rng.random() < 0.1:
+            # the preset exactly as documented: every option at its default (verbose, halting, max 100, tiers 10/10/10)
+            tiers, maxamp, halt, mk_mode, mk_silent = [10.0, 10.0, 10.0], 100.0, True, "default", False
+            casc = recording(MAPKCascade)()
+            acc["mapk_presets_all_defaults"] = acc.get("mapk_presets_all_defaults", 0) + 1
+        else:
+            casc = recording(MAPKCascade)("mapk", tiers[0], tiers[1], tiers[2], mode=mk_mode, max_amplification=maxamp,
+                                          halt_on_failure=halt, silent=mk_silent)
+        if not mk_silent:
+            acc["mapk_presets_not_silent"] = acc.get("mapk_presets_not_silent", 0) + 1
         if variant == "remove-MAPKK":
             casc.remove_stage("MAPKK")
         elif variant == "remove-MAPKKK":
@@ -809,12 +944,28 @@ def case_mapk(ctx, n, tp):
         if len({st.name for st in built}) < len(built):
             acc["mapk_runs_with_duplicate_tier_name"] = acc.get("mapk_runs_with_duplicate_tier_name", 0) + 1
         meta = wrap_stages(built)
+
+        def describe(variant=variant, tiers=tiers, maxamp=maxamp, halt=halt, meta=meta, mk_mode=mk_mode, mk_silent=mk_silent):
+            return {"preset": "MAPKCascade", "variant": variant, "tier_amplification": tiers, "max_amplification": maxamp,
+                    "halt_on_failure": halt, "mode": repr(mk_mode), "silent": mk_silent, "stages": [m[0] for m in meta]}
+        cur = (casc, meta, halt, maxamp, describe)
+        # two differently configured preset instances in one process, used alternately: the previous one runs again
+        # (new input) after this one, then this one once more
+        if prev is not None:
+            for (c2, meta2, halt2, maxamp2, describe2) in (prev, cur):
+                inp2 = mapk_input(rng)
+                LOG = log2 = []
+                CUR_INPUT = inp2
+                try:
+                    res2 = c2.run(inp2)
+                except Exception:
+                    res2 = None
+                judge(ctx, acc, meta2, halt2, maxamp2, inp2, log2, res2, describe2, "mapk")
+                acc["mapk_runs"] = acc.get("mapk_runs", 0) + 1
+                acc["mapk_runs_alternating_instances"] = acc.get("mapk_runs_alternating_instances", 0) + 1
+        prev = cur
         LOG = log = []
         CUR_INPUT = inp
-
-        def describe(variant=variant, tiers=tiers, maxamp=maxamp, halt=halt, meta=meta):
-            return {"preset": "MAPKCascade", "variant": variant, "tier_amplification": tiers, "max_amplification": maxamp,
-                    "halt_on_failure": halt, "stages": [m[0] for m in meta]}
         try:
             res = casc.run(inp)
         except Exception:
@@ -964,13 +1115,20 @@ TW_PR = ["pass", "raise", "identity", "returns-None"]
 TW_HD = ["-", "recover", "raise", "recover-with-None"]
 
 
-def run_twins(ctx, acc, spec, halt, maxamp, layer, runs=1):
+def run_twins(ctx, acc, spec, halt, maxamp, layer, runs=1, mode=None, silent=True):
     """spec: per pipeline position (name, object key, C#, P#, H#, has_checkpoint, has_handler, required, factor,
     (checkpoint, processor, handler) behaviour AT THIS POSITION). Positions with the same object key hold the very same
     CascadeStage object (their name / callables / flags / factor are then equal by construction)."""
     global TW
     from operon_ai.topology.cascade import Cascade, CascadeStage
-    casc = Cascade("c19-twins", max_amplification=maxamp, halt_on_failure=halt, silent=True)
+    kw = {} if mode is None else {"mode": mode}
+    if not silent:
+        acc["runs_not_silent"] = acc.get("runs_not_silent", 0) + runs
+    if mode is not None:
+        km = "runs_in_mode_%s" % getattr(mode, "name", mode)
+        acc[km] = acc.get(km, 0) + runs
+        acc["runs_with_explicit_mode"] = acc.get("runs_with_explicit_mode", 0) + runs
+    casc = Cascade("c19-twins", max_amplification=maxamp, halt_on_failure=halt, silent=silent, **kw)
     objs = {}
     meta = []
     bind = {'c': {}, 'p': {}, 'h': {}}
@@ -994,7 +1152,7 @@ def run_twins(ctx, acc, spec, halt, maxamp, layer, runs=1):
     has_hd = [x[6] for x in spec]
 
     def describe():
-        return {"halt_on_failure": halt, "max_amplification": maxamp,
+        return {"halt_on_failure": halt, "max_amplification": maxamp, "mode": repr(mode), "silent": silent,
                 "stages": [{"position": j, "name": x[0], "stage_object": "stage-object-%s" % (x[1],),
                             "checkpoint": ("C#%d %s" % (x[2], TW_CP[x[9][0]])) if x[5] else "-",
                             "processor": "P#%d %s" % (x[3], TW_PR[x[9][1]]),
@@ -1110,7 +1268,8 @@ def case_twin_sweep(ctx, n, tp):
         maxamp = rng.choice(MAXAMPS)
         spec = tw_spec(k, part, mode, codes, factors)
         _tw_count_modes(acc, spec)
-        state, res, describe = run_twins(ctx, acc, spec, halt, maxamp, "twin-sweep")
+        state, res, describe = run_twins(ctx, acc, spec, halt, maxamp, "twin-sweep",
+                                         mode=rng.choice(modes()), silent=rng.random() < 0.75)
         if "twin-sweep" not in _sampled and mode == 1 and DONE in state and FAILED in state and n >= ctx.nshards:
             _sampled.add("twin-sweep")
             ctx.sample({"layer": "twin-sweep", "pipeline": describe(), "result": render_result(res)}, cap=6)
@@ -1156,11 +1315,813 @@ def case_twin_random(ctx, n, tp):
                 cq, pq, hq = rng.randrange(2), rng.randrange(2), rng.randrange(2)
             spec.append((names[j], j, cq, pq, hq, cp != 0, hd != 0, req, f, (cp, pr, hd)))
         _tw_count_modes(acc, spec)
-        state, res, describe = run_twins(ctx, acc, spec, halt, maxamp, "twin-random", runs=2)
+        state, res, describe = run_twins(ctx, acc, spec, halt, maxamp, "twin-random", runs=2,
+                                         mode=rng.choice([None] + modes()), silent=rng.random() < 0.75)
         acc["twin_random_pipelines"] = acc.get("twin_random_pipelines", 0) + 1
         if "twin-random" not in _sampled and k >= 4 and style == 3 and state is not None and state[k - 1] != NOT_REACHED:
             _sampled.add("twin-random")
             ctx.sample({"layer": "twin-random", "pipeline": describe(), "result": render_result(res)}, cap=6)
+    flush(ctx, acc)
+
+
+# ---------------------------------------------------------------------------- configuration sessions
+# Everything the layers above keep constant: every constructor option and public attribute at degenerate / extreme values
+# (all CascadeMode members, max_amplification 0 / tiny / int / 2**53 / 1e308 / inf, halt_on_failure and `required` given as
+# 1 / 0, factors 0.0 / -0.0 / denormal / 0.1+0.2-style / ints / 1e308, timeout_seconds 0 / tiny / inf, odd cascade and
+# stage names incl. '' and names differing only in case), the AgentCascade constructor path (with add_agent_stage gates),
+# user observers (on_stage_complete / on_cascade_complete) that RAISE, checkpoints that return truthy / falsy non-booleans or
+# an object whose truth value raises, several exception types, signals that are falsy / all equal to each other / one shared
+# constant object / None, the SAME input object handed to consecutive runs - on 1..3 long-lived instances configured
+# differently, used alternately, sharing CascadeStage objects, and MUTATED between runs through the public surface
+# (add_stage / insert_stage / remove_stage, attribute assignment on the cascade and on the stage objects, scribbling over
+# returned results). A session is pure data (generated from the case rng) and is executed several times on fresh objects:
+#   plain   : as generated;
+#   verbose : every instance's `silent` flag inverted (printing branches) - results must equal the plain execution;
+#   reads   : get_statistics / get_history / repr called at callback entries and between runs (and what they return
+#             scribbled over) - results must equal the plain execution;
+#   clock   : the module-level `time` of the cascade module reads a virtual clock that jumps inside callbacks (micro-
+#             seconds, > 24 h, 400 days, backwards) - judged only (a tree that enforces stage timeouts may fail stages).
+# Every run of every execution is judged by the same `judge` against its own invocation log (mechanism suffix
+# `:config-session`). One session per tier-run is LONG (> 20 000 runs on one instance: the bounded result history turns over
+# many times).
+CF = None            # the run in progress (this layer is single-threaded)
+CF_MSUF = ":config-session"
+
+
+class FalsySig(Sig):
+    __slots__ = ()
+
+    def __bool__(self):
+        return False
+
+    def __len__(self):
+        return 0
+
+    def __repr__(self):
+        return "<falsy sig %s>" % self.tag
+
+
+class EqSig(Sig):
+    """every EqSig equals every other one (and hashes alike): only identity tells them apart"""
+    __slots__ = ()
+
+    def __eq__(self, o):
+        return isinstance(o, EqSig)
+
+    def __ne__(self, o):
+        return not isinstance(o, EqSig)
+
+    def __hash__(self):
+        return 7
+
+    def __repr__(self):
+        return "<eq sig %s>" % self.tag
+
+
+class BoolRaises:
+    def __bool__(self):
+        raise Boom("truth value of the checkpoint's return value raised")
+
+    def __repr__(self):
+        return "<truth-value-raises>"
+
+
+class HostileStr(Exception):
+    def __str__(self):
+        raise Boom("str() of the exception raised")
+
+    def __repr__(self):
+        return "HostileStr()"
+
+
+class OddLookup(LookupError):
+    pass
+
+
+CONST_SIG = Sig("module-level-constant")
+TRUTHY = [1, "yes", (0,), 2.5, float("nan"), -1, "False"]
+FALSY = [0, None, "", (), 0.0, -0.0, b""]
+FALSY_OUT = [0, "", False, (), 0.0]
+CF_EXC = [lambda m: Boom(m), lambda m: KeyError(m), lambda m: ValueError(), lambda m: OddLookup("{0} %s {x}\n" + m),
+          lambda m: ZeroDivisionError(m), lambda m: RuntimeError(m, 2, None), lambda m: HostileStr(m)]
+CF_NAMES = ["", " ", "0", "None", "stage", "Stage", "STAGE", "s{0}", "%s%d", "étape-ß☃", "x" * 300, "a\nb",
+            "MAPK", "False"]
+CF_FACTORS = [0.0, -0.0, 5e-324, 1e-12, 0.1, 0.2, 0.3, 0.5, 1, 1.0, 1.0000000000000002, 0.9999999999999999, 1.5, 2, 3, 10,
+              10.0, 100.0, 200.0, 1e6, 2 ** 53 + 1, 1e200, 1e308, 0.1, 0.5, 2, 10.0,
+              -1.0, -2.5, float("inf"), float("nan")]       # outside 'finite and >= 0': the clamped product is still defined
+CF_MAXAMPS = [100.0, 100, 5.0, 5, 1.0, 1, 0.5, 0.0, 1e-9, 0.1 + 0.2, 0.3, 1000.0, 2 ** 53, 1e308, float("inf")]
+CF_TIMEOUTS = [30.0, 0, 0.0, 1e-9, 0.5, 1, 1e9, float("inf")]
+CF_BOOLS = [True, False, True, False, 1, 0]
+CF_JUMPS = [0.0, 1e-6, 0.25, 30.0, 86400.0 * 1.5, 86400.0 * 400, -3600.0, 59.999, -1e-3]
+CF_CP = ["-", "pass", "reject", "raise", "pass-only-for-run-input", "alternate-pass-reject", "returns-truthy-non-bool",
+         "returns-falsy-non-bool", "returns-object-whose-truth-value-raises"]
+CF_PR = ["pass", "raise", "identity", "returns-None", "returns-falsy-signal", "returns-shared-constant",
+         "returns-all-equal-signal", "returns-falsy-builtin"]
+CF_HD = ["-", "recover", "raise", "recover-with-None", "recover-with-falsy-builtin", "returns-the-exception"]
+
+
+class _BufCtx:
+    """Violations of one session execution are held back until the executor's model of every pipeline has been confirmed
+    through the public statistics at the end of the session (a tree with another reading of remove_stage / insert_stage
+    would otherwise be judged against the wrong pipeline)."""
+
+    def __init__(self, ctx):
+        self.ctx = ctx
+        self.buf = []
+        self.more = {}
+
+    def violation(self, mech, what, witness=None):
+        if len(self.buf) < 40:
+            self.buf.append((mech, what, witness))
+        else:
+            self.more[mech] = self.more.get(mech, (0, what))[0] + 1, what
+
+    def nontrivial(self, fp):
+        self.ctx.nontrivial(fp)
+
+    def release(self):
+        for mech, what, w in self.buf:
+            self.ctx.violation(mech, what, w)
+        for mech, (k, what) in self.more.items():
+            for _ in range(k):
+                self.ctx.violation(mech, what, {"note": "further occurrence in a session whose first 40 violations carry witnesses"})
+
+
+class CfRun:
+    __slots__ = ("casc", "pos", "script", "log", "inp", "hook", "obs_raise", "casc_obs_raises", "reported", "flip", "stray",
+                 "tag")
+
+    def __init__(self, casc, pos, script, inp, hook, obs_raise, casc_obs_raises, flip, tag):
+        self.casc, self.pos, self.script, self.inp, self.hook = casc, pos, script, inp, hook
+        self.obs_raise, self.casc_obs_raises, self.flip, self.tag = obs_raise, casc_obs_raises, flip, tag
+        self.log = []
+        self.reported = UNSET_R
+        self.stray = 0
+
+
+UNSET_R = object()
+
+
+def _cf_exc(aux, what):
+    return CF_EXC[aux % len(CF_EXC)](what)
+
+
+def _mk_cf_stubs(s):
+    def cp(sig):
+        r = CF
+        j = r.pos.get(s)
+        if j is None:            # a stage that is not (any longer) part of this pipeline was consulted: not logged
+            r.stray += 1
+            return True
+        if r.hook is not None:
+            r.hook()
+        b, _p, _h, aux = r.script[s]
+        if b == 3:
+            r.log.append((j, 'c', sig, 'raise', None))
+            raise _cf_exc(aux, "gate %d" % j)
+        if b == 8:
+            r.log.append((j, 'c', sig, 'raise', None))
+            return BoolRaises()
+        if b == 1:
+            v = True
+        elif b == 2:
+            v = False
+        elif b == 4:
+            v = sig is r.inp
+        elif b == 5:
+            k = r.flip.get(s, 0)
+            r.flip[s] = k + 1
+            v = (k % 2 == 0)
+        elif b == 6:
+            v = TRUTHY[aux % len(TRUTHY)]
+        else:
+            v = FALSY[aux % len(FALSY)]
+        r.log.append((j, 'c', sig, True if v else False, None))
+        return v
+
+    def pr(sig):
+        r = CF
+        j = r.pos.get(s)
+        if j is None:
+            r.stray += 1
+            return Sig("stray")
+        if r.hook is not None:
+            r.hook()
+        _c, b, _h, aux = r.script[s]
+        if b == 1:
+            r.log.append((j, 'p', sig, 'raise', None))
+            raise _cf_exc(aux, "processor %d" % j)
+        if b == 0:
+            o = Sig("%s.p%d" % (r.tag, j))
+        elif b == 2:
+            o = sig
+        elif b == 3:
+            o = None
+        elif b == 4:
+            o = FalsySig("%s.p%d" % (r.tag, j))
+        elif b == 5:
+            o = CONST_SIG
+        elif b == 6:
+            o = EqSig("%s.p%d" % (r.tag, j))
+        else:
+            o = FALSY_OUT[aux % len(FALSY_OUT)]
+        r.log.append((j, 'p', sig, 'ret', o))
+        return o
+
+    def hd(e):
+        r = CF
+        j = r.pos.get(s)
+        if j is None:
+            r.stray += 1
+            return None
+        if r.hook is not None:
+            r.hook()
+        _c, _p, b, aux = r.script[s]
+        if b == 2:
+            r.log.append((j, 'h', e, 'raise', None))
+            raise _cf_exc(aux // 7, "handler %d" % j)
+        if b == 1:
+            o = Sig("%s.h%d" % (r.tag, j))
+        elif b == 3:
+            o = None
+        elif b == 4:
+            o = FALSY_OUT[aux % len(FALSY_OUT)]
+        else:
+            o = e
+        r.log.append((j, 'h', e, 'ret', o))
+        return o
+
+    return cp, pr, hd
+
+
+CF_NSLOTS = 7
+CF_STUBS = [_mk_cf_stubs(s) for s in range(CF_NSLOTS)]
+
+
+def _cf_agent_processor(s, f):
+    """logging wrapper around the processor that AgentCascade.add_agent_stage built"""
+    def pr(sig):
+        r = CF
+        j = r.pos.get(s)
+        if j is None:
+            r.stray += 1
+            return f(sig)
+        if r.hook is not None:
+            r.hook()
+        try:
+            o = f(sig)
+        except Exception:
+            r.log.append((j, 'p', sig, 'raise', None))
+            raise
+        r.log.append((j, 'p', sig, 'ret', o))
+        return o
+    return pr
+
+
+def cf_stage_observer(sr):
+    r = CF
+    if r is None:
+        return
+    if r.hook is not None:
+        r.hook()
+    # stage names are labels: the notification belongs to the stage function call this run logged last
+    j = -1
+    if r.log and r.log[-1][1] in ('p', 'h') and r.log[-1][3] == 'ret':
+        j = r.log[-1][0]
+    if j in r.obs_raise:
+        r.log.append((j, 's', sr, 'raise', None))
+        raise Boom("on_stage_complete observer raised")
+    r.log.append((j, 's', sr, 'ret', None))
+
+
+def cf_cascade_observer(result):
+    r = CF
+    if r is None:
+        return
+    r.reported = result
+    if r.casc_obs_raises:
+        raise Boom("on_cascade_complete observer raised")
+
+
+def gen_session(rng, nops, p_run, long=False):
+    """A session as pure data: slot definitions, instance configurations, operations. The generator keeps the same model
+    of every pipeline as the executor (documented semantics of add_stage / insert_stage / remove_stage) so that only
+    meaningful operations are generated and pipelines stay within 1..5 stages."""
+    nslots = rng.randint(2, CF_NSLOTS)
+    hostile = (not long) and rng.random() < 0.04          # exceptions whose str() raises: no differential for the session
+    slots = []
+    for s in range(nslots):
+        nm = ("s%d" % s) if rng.random() < 0.5 else rng.choice(CF_NAMES)
+        slots.append({"name": nm, "has_cp": rng.random() < 0.6, "has_hd": rng.random() < 0.4,
+                      "required": rng.choice(CF_BOOLS), "factor": rng.choice(CF_FACTORS if rng.random() < 0.6 else FACTORS_X),
+                      "timeout": rng.choice(CF_TIMEOUTS), "agent": False})
+    ninst = rng.choice([1, 2, 2, 2, 3])
+    insts = []
+    for a in range(ninst):
+        k = rng.randint(1, min(5, nslots))
+        pipe = rng.sample(range(nslots), k)
+        ctor = "agent" if rng.random() < 0.25 else "plain"
+        cfg = {"ctor": ctor, "name": rng.choice(["c19-cfg", "", "{0}%s", "C☃"]),
+               "mode": rng.randrange(-1, 11),                # -1: not passed (default); else index into members + 2 strings
+               "maxamp": rng.choice(CF_MAXAMPS) if rng.random() < 0.8 else None,        # None: not passed
+               "halt": rng.choice(CF_BOOLS) if rng.random() < 0.85 else None,           # None: not passed (default True)
+               "silent": rng.random() < 0.7,
+               "stage_obs": rng.random() < 0.5, "casc_obs": rng.random() < 0.4,
+               "pipe": pipe, "agent_slots": []}
+        insts.append(cfg)
+    # a slot that sits in the initial pipeline of ONE instance only may be an agent stage of that (AgentCascade) instance:
+    # built by add_agent_stage; it stays with its owner
+    owner = {}
+    for a, cfg in enumerate(insts):
+        if cfg["ctor"] == "agent":
+            for s in cfg["pipe"]:
+                if rng.random() < 0.4 and not any(s in o["pipe"] for o in insts if o is not cfg):
+                    cfg["agent_slots"].append(s)
+                    owner[s] = a
+                    slots[s]["agent"] = True
+                    slots[s]["has_hd"] = False          # add_agent_stage's defaults
+                    slots[s]["required"] = True
+                    slots[s]["timeout"] = 30.0
+    names = [d["name"] for d in slots]
+    has_cp = [d["has_cp"] for d in slots]
+    has_hd = [d["has_hd"] for d in slots]
+    agent = [d["agent"] for d in slots]
+    pipes = [list(c["pipe"]) for c in insts]
+    obs_on = [c["stage_obs"] for c in insts]
+    cobs_on = [c["casc_obs"] for c in insts]
+    ops = []
+    for t in range(nops):
+        # a long session keeps to ONE instance (the others are used now and then in between)
+        a = 0 if (long and rng.random() < 0.9) else rng.randrange(ninst)
+        pipe = pipes[a]
+        u = rng.random()
+        if u >= p_run:
+            v = rng.random()
+            if v < 0.18 and len(pipe) > 1:
+                j = rng.randrange(len(pipe))
+                nm = names[pipe[j]]
+                ops.append(("remove", a, nm))
+                for jj, s in enumerate(pipe):
+                    if names[s] == nm:
+                        pipe.pop(jj)
+                        break
+                continue
+            if v < 0.40 and len(pipe) < 5:
+                free = [s for s in range(nslots) if s not in pipe and owner.get(s, a) == a]
+                if free:
+                    s = rng.choice(free)
+                    if rng.random() < 0.5:
+                        ops.append(("add", a, s))
+                        pipe.append(s)
+                    else:
+                        idx = rng.randint(0, len(pipe))
+                        ops.append(("insert", a, idx, s))
+                        pipe.insert(idx, s)
+                    continue
+            if v < 0.45:
+                ops.append(("remove-missing", a))
+                continue
+            if v < 0.70:
+                attr = rng.choice(["halt", "maxamp", "mode", "stage_obs", "casc_obs", "name"])
+                if attr == "halt":
+                    val = rng.choice(CF_BOOLS)
+                elif attr == "maxamp":
+                    val = rng.choice(CF_MAXAMPS)
+                elif attr == "mode":
+                    val = rng.randrange(11)
+                elif attr == "name":
+                    val = rng.choice(["renamed", "", "{}"])
+                else:
+                    val = rng.random() < 0.5
+                    if attr == "stage_obs":
+                        obs_on[a] = val
+                    else:
+                        cobs_on[a] = val
+                ops.append(("set", a, attr, val))
+                continue
+            s = rng.randrange(nslots)
+            field = rng.choice(["required", "factor", "timeout", "has_cp", "has_hd", "name"])
+            if agent[s] and field in ("has_hd", "name"):
+                field = "factor"
+            if field == "required":
+                val = rng.choice(CF_BOOLS)
+            elif field == "factor":
+                val = rng.choice(CF_FACTORS)
+            elif field == "timeout":
+                val = rng.choice(CF_TIMEOUTS)
+            elif field == "name":
+                val = rng.choice(CF_NAMES + ["s%d" % rng.randrange(nslots)])
+                names[s] = val
+            else:
+                val = rng.random() < 0.5
+                if field == "has_cp":
+                    has_cp[s] = val
+                else:
+                    has_hd[s] = val
+            ops.append(("stage", s, field, val))
+            continue
+        # a run: behaviour of every stage of this pipeline for this run
+        script = {}
+        easy = rng.random() < (0.75 if long else 0.5)       # mostly passing, so that deep stages and success are reached
+        for s in pipe:
+            if easy:
+                cp = rng.choice([1, 1, 1, 1, 1, 1, 6, 6, 4, 5, 2, 3, 7])
+                pr = rng.choice([0, 0, 0, 0, 0, 2, 3, 4, 5, 6, 7, 1])
+                hd = rng.choice([1, 1, 1, 3, 4, 5, 2])
+            else:
+                cp = rng.choice([1, 1, 2, 3, 4, 5, 6, 7, 8])
+                pr = rng.choice([0, 0, 1, 1, 2, 3, 4, 5, 6, 7])
+                hd = rng.choice([1, 1, 2, 2, 3, 4, 5])
+            aux = rng.randrange(7 * 7)
+            if not hostile:
+                # keep the exception kinds (aux % 7 for gates / processors, (aux // 7) % 7 for handlers) off HostileStr
+                if aux % 7 == 6:
+                    aux -= 1
+                if (aux // 7) % 7 == 6:
+                    aux -= 7
+            script[s] = (cp, pr, hd, aux)
+        inp_kind = rng.choice([0, 0, 0, 0, 0, 0, 1, 1, 2, 3, 4, 5, 6])
+        obs_raise = ()
+        if obs_on[a] and rng.random() < 0.3:
+            obs_raise = tuple(sorted({rng.randrange(len(pipe)) for _ in range(rng.choice([1, 1, 2]))}))
+        cobs_raises = cobs_on[a] and rng.random() < 0.2
+        ops.append(("run", a, script, inp_kind, obs_raise, cobs_raises, rng.random() < 0.3))
+    return {"slots": slots, "insts": insts, "ops": ops, "hostile": hostile, "long": long}
+
+
+def _cf_summary(res, raised, log):
+    shape = tuple((i, role, oc if role != 'c' else bool(oc is True) if oc != 'raise' else 'raise') for (i, role, _a, oc, _v) in log)
+    if res is None:
+        return ("raised" if raised else "no-result", shape)
+    try:
+        return ("returned" if not raised else "raised-after-reporting", bool(res.success), repr(res.final_output),
+                res.blocked_at, repr(res.total_amplification), res.stages_completed, res.stages_total,
+                tuple((x.stage_name, x.status.name) for x in res.stage_results), shape)
+    except Exception as e:
+        return ("unreadable", type(e).__name__, shape)
+
+
+def exec_session(ctx, acc, sess, variant, layer):
+    """Execute a session on fresh objects. Returns the list of per-run summaries (for the differentials), or None when the
+    session had to be abandoned (self-deadlock of an instrumented lock, pipeline model not confirmed by the public
+    statistics)."""
+    global CF
+    import operon_ai.topology.cascade as cmod
+    from operon_ai.state.metabolism import ATP_Store
+    Cascade, AgentCascade, CascadeStage = cmod.Cascade, cmod.AgentCascade, cmod.CascadeStage
+
+    def bump(k_, v=1):
+        acc[k_] = acc.get(k_, 0) + v
+
+    ms = modes()
+    # besides every member of the enum: plain strings equal to a member's value (a non-enum tag)
+    ms = ms + [getattr(m_, "value", str(m_)) for m_ in ms[:2]]
+    bctx = _BufCtx(ctx)
+    cur = [dict(d) for d in sess["slots"]]            # current fields of every slot's stage object
+    stages = {}
+
+    def stage_for(s):
+        st = stages.get(s)
+        if st is None:
+            d = cur[s]
+            cp, pr, hd = CF_STUBS[s]
+            st = stages[s] = CascadeStage(name="".join(list(d["name"])), processor=pr, amplification=d["factor"],
+                                          checkpoint=cp if d["has_cp"] else None, on_error=hd if d["has_hd"] else None,
+                                          timeout_seconds=d["timeout"], required=d["required"])
+        return st
+
+    cascs, pipes, conf = [], [], []
+    for cfg in sess["insts"]:
+        silent = cfg["silent"] if variant != "verbose" else (not cfg["silent"])
+        kw = {}
+        mode_v = None
+        if cfg["mode"] >= 0:
+            mode_v = kw["mode"] = ms[cfg["mode"] % len(ms)]
+        if cfg["maxamp"] is not None:
+            kw["max_amplification"] = cfg["maxamp"]
+        if cfg["halt"] is not None:
+            kw["halt_on_failure"] = cfg["halt"]
+        if silent:
+            kw["silent"] = True
+        if cfg["stage_obs"]:
+            kw["on_stage_complete"] = cf_stage_observer
+        if cfg["casc_obs"]:
+            kw["on_cascade_complete"] = cf_cascade_observer
+        if cfg["ctor"] == "agent":
+            casc = recording(AgentCascade)(cfg["name"], budget=ATP_Store(budget=10 ** 6, silent=True), **kw)
+            bump("cf_instances_AgentCascade")
+        else:
+            casc = Cascade(cfg["name"], **kw)
+            bump("cf_instances_Cascade")
+        locks.wrap_all_locks(casc, lambda inner, nm: locks.DetectingLock(inner, nm))
+        for s in cfg["pipe"]:
+            if s in cfg["agent_slots"]:
+                d = cur[s]
+                casc.add_agent_stage(d["name"], "Processor", amplification=d["factor"],
+                                     checkpoint=CF_STUBS[s][0] if d["has_cp"] else None)
+                made = casc.__dict__.get("c19_mirror") or []
+                st = made[-1] if made else None
+                if not isinstance(st, CascadeStage):
+                    bump("cf_agent_stage_object_not_established")
+                    return None
+                st.processor = _cf_agent_processor(s, st.processor)
+                stages[s] = st
+                bump("cf_agent_stages")
+            else:
+                casc.add_stage(stage_for(s))
+        cascs.append(casc)
+        pipes.append(list(cfg["pipe"]))
+        conf.append({"halt": True if cfg["halt"] is None else cfg["halt"],
+                     "maxamp": 100.0 if cfg["maxamp"] is None else cfg["maxamp"],
+                     "mode": mode_v, "silent": silent, "ctor": cfg["ctor"]})
+        if not silent:
+            bump("cf_instances_not_silent")
+    if len(cascs) > 1:
+        bump("cf_sessions_several_instances")
+        if any(set(pipes[a]) & set(pipes[b]) for a in range(len(pipes)) for b in range(a)):
+            bump("cf_sessions_stage_object_shared_between_instances")
+
+    clock = None
+    counter = [0]
+    if variant == "reads":
+        def hook():
+            counter[0] += 1
+            c_ = counter[0]
+            if c_ % 2:
+                return
+            c = cascs[c_ % len(cascs)]
+            k = (c_ // 2) % 7
+            try:
+                if k == 0:
+                    c.get_statistics().clear()
+                elif k == 1:
+                    c.get_history().clear()
+                elif k == 2:
+                    repr(c)
+                    str(c)
+                elif k == 3:
+                    for x in c.get_history(limit=1):
+                        repr(x)
+                elif k == 4:
+                    c.get_history(0)
+                elif k == 5:
+                    d = c.get_statistics()
+                    d["stage_names"].clear()
+                    d["runs_count"] = -1
+                else:
+                    c.get_history(limit=10 ** 9).reverse()
+                bump("cf_reporting_reads")
+            except Exception:
+                bump("cf_reporting_read_raised_unjudged")
+    elif variant == "clock":
+        clock = vclock.VClock()
+
+        def hook():
+            counter[0] += 1
+            clock.offset += CF_JUMPS[counter[0] % len(CF_JUMPS)]
+            bump("cf_clock_jumps")
+    else:
+        hook = None
+
+    last_inp = {}
+    flips = [dict() for _ in cascs]
+    summaries = []
+    nrun = 0
+
+    def describe_run(a, script, opi):
+        def d():
+            pipe = pipes_at[0]
+            return {"session_execution": variant, "operation_index": opi, "instance": a, "instances_in_session": len(cascs),
+                    "constructor": conf_at[0]["ctor"], "mode": repr(conf_at[0]["mode"]), "silent": conf_at[0]["silent"],
+                    "halt_on_failure": repr(conf_at[0]["halt"]), "max_amplification": repr(conf_at[0]["maxamp"]),
+                    "stages": [{"position": j, "name": x["name"], "required": repr(x["required"]),
+                                "amplification": repr(x["factor"]), "timeout_seconds": repr(x["timeout"]),
+                                "agent_stage": x["agent"],
+                                "checkpoint": CF_CP[script[s][0]] if x["has_cp"] else "-",
+                                "processor": "agent" if x["agent"] else CF_PR[script[s][1]],
+                                "on_error": CF_HD[script[s][2]] if x["has_hd"] else "-"}
+                               for j, (s, x) in enumerate(pipe)],
+                    "operations_before_this_run": [repr(o)[:160] for o in sess["ops"][max(0, opi - 12):opi]
+                                                   if o[0] != "run"]}
+        pipes_at = [[(s, dict(cur[s])) for s in pipes[a]]]
+        conf_at = [dict(conf[a])]
+        return d
+
+    try:
+        with (vclock.patched(clock, cmod) if clock is not None else contextlib.nullcontext()):
+            for opi, op in enumerate(sess["ops"]):
+                kind = op[0]
+                if kind == "run":
+                    _k, a, script, inp_kind, obs_raise, cobs_raises, scribble = op
+                    casc, pipe = cascs[a], pipes[a]
+                    nrun += 1
+                    tag = "r%d" % nrun
+                    if inp_kind == 1 and a in last_inp:
+                        inp = last_inp[a]
+                        bump("cf_runs_same_input_object_again")
+                    elif inp_kind == 2:
+                        inp = None
+                    elif inp_kind == 3:
+                        inp = FalsySig(tag + ".in")
+                    elif inp_kind == 4:
+                        inp = EqSig(tag + ".in")
+                    elif inp_kind == 5:
+                        inp = CONST_SIG
+                    elif inp_kind == 6:
+                        inp = FALSY_OUT[nrun % len(FALSY_OUT)]
+                    else:
+                        inp = Sig(tag + ".in")
+                    last_inp[a] = inp
+                    pos = {s: j for j, s in enumerate(pipe)}
+                    r = CfRun(casc, pos, script, inp, hook, frozenset(obs_raise), cobs_raises, flips[a], tag)
+                    raised = False
+                    CF = r
+                    try:
+                        res = casc.run(inp)
+                    except Exception:
+                        res, raised = None, True
+                    finally:
+                        CF = None
+                    if r.stray:
+                        bump("cf_calls_of_stage_not_in_pipeline", r.stray)
+                    if res is None and r.reported is not UNSET_R:
+                        # run() raised after it had handed its result to the on_cascade_complete observer: that result
+                        # was reported
+                        res = r.reported
+                        bump("cf_results_taken_from_cascade_observer")
+                    c_ = conf[a]
+                    meta = [(cur[s]["name"], cur[s]["has_cp"], cur[s]["has_hd"], bool(cur[s]["required"]), cur[s]["factor"])
+                            for s in pipe]
+                    state = judge(bctx, acc, meta, bool(c_["halt"]), c_["maxamp"], inp, r.log, res,
+                                  describe_run(a, script, opi), layer, msuf=CF_MSUF)
+                    summaries.append(_cf_summary(res, raised, r.log))
+                    bump("cf_runs")
+                    if raised:
+                        bump("cf_runs_raised")
+                    if obs_raise:
+                        bump("cf_runs_stage_observer_scripted_to_raise")
+                    if cobs_raises:
+                        bump("cf_runs_cascade_observer_raises")
+                    if res is not None and getattr(res, "success", False):
+                        bump("cf_runs_reported_success")
+                    if c_["mode"] is not None:
+                        bump("runs_in_mode_%s" % getattr(c_["mode"], "name", c_["mode"]))
+                        bump("runs_with_explicit_mode")
+                    if not c_["silent"]:
+                        bump("runs_not_silent")
+                    if any(script[s][0] in (6, 7, 8) and cur[s]["has_cp"] for s in pipe):
+                        bump("cf_runs_with_non_bool_gate_verdict")
+                    if c_["maxamp"] in (0, 0.0) or c_["maxamp"] == float("inf") or c_["maxamp"] >= 2 ** 53:
+                        bump("cf_runs_extreme_max_amplification")
+                    if scribble and res is not None and not raised:
+                        # the caller mutates what it was given after the call
+                        try:
+                            res.stage_results.clear()
+                            res.final_output = "scribbled"
+                            res.success = not res.success
+                            res.total_amplification = -1.0
+                            res.blocked_at = "scribbled"
+                            bump("cf_results_scribbled_after_the_call")
+                        except Exception:
+                            bump("cf_result_not_scribblable_unjudged")
+                    if variant == "reads":
+                        hook()
+                        hook()
+                elif kind == "remove":
+                    _k, a, nm = op
+                    ok = cascs[a].remove_stage("".join(list(nm)))
+                    if ok:
+                        for jj, s in enumerate(pipes[a]):
+                            if cur[s]["name"] == nm:
+                                pipes[a].pop(jj)
+                                break
+                    bump("cf_ops_remove_stage")
+                elif kind == "remove-missing":
+                    cascs[op[1]].remove_stage("no stage carries this name ☃")
+                elif kind == "add":
+                    _k, a, s = op
+                    cascs[a].add_stage(stage_for(s))
+                    pipes[a].append(s)
+                    bump("cf_ops_add_stage")
+                elif kind == "insert":
+                    _k, a, idx, s = op
+                    cascs[a].insert_stage(idx, stage_for(s))
+                    pipes[a].insert(idx, s)
+                    bump("cf_ops_insert_stage")
+                elif kind == "set":
+                    _k, a, attr, val = op
+                    casc = cascs[a]
+                    if attr == "halt":
+                        casc.halt_on_failure = val
+                        conf[a]["halt"] = val
+                    elif attr == "maxamp":
+                        casc.max_amplification = val
+                        conf[a]["maxamp"] = val
+                    elif attr == "mode":
+                        casc.mode = conf[a]["mode"] = ms[val % len(ms)]
+                    elif attr == "name":
+                        casc.name = val
+                    elif attr == "stage_obs":
+                        casc.on_stage_complete = cf_stage_observer if val else None
+                    else:
+                        casc.on_cascade_complete = cf_cascade_observer if val else None
+                    bump("cf_ops_attribute_set")
+                else:
+                    _k, s, field, val = op
+                    st = stage_for(s)
+                    if field == "required":
+                        st.required = val
+                        cur[s]["required"] = val
+                    elif field == "factor":
+                        st.amplification = val
+                        cur[s]["factor"] = val
+                    elif field == "timeout":
+                        st.timeout_seconds = val
+                        cur[s]["timeout"] = val
+                    elif field == "name":
+                        st.name = "".join(list(val))
+                        cur[s]["name"] = val
+                    elif field == "has_cp":
+                        st.checkpoint = CF_STUBS[s][0] if val else None
+                        cur[s]["has_cp"] = val
+                    else:
+                        st.on_error = CF_STUBS[s][2] if val else None
+                        cur[s]["has_hd"] = val
+                    bump("cf_ops_stage_object_mutated")
+    except locks.WouldHang:
+        CF = None
+        bump("cf_sessions_self_deadlock_unjudged")
+        return None              # (the hang itself belongs to another property; the session's model was not confirmed)
+    # the model of every pipeline, confirmed through the public statistics (names in order)
+    for a, casc in enumerate(cascs):
+        try:
+            got = list(casc.get_statistics()["stage_names"])
+        except Exception:
+            bump("cf_statistics_unreadable_unjudged")
+            continue
+        if got != [cur[s]["name"] for s in pipes[a]]:
+            bump("cf_pipeline_model_not_confirmed_by_statistics")
+            bump("cf_violations_dropped_model_not_confirmed", len(bctx.buf) + sum(k for k, _w in bctx.more.values()))
+            return None
+    bctx.release()
+    if clock is not None:
+        bump("cf_clock_reads", clock.reads)
+    bump("cf_session_executions")
+    return summaries
+
+
+def run_session(ctx, acc, sess, variants):
+    base = exec_session(ctx, acc, sess, "plain", "config-plain")
+    acc["cf_sessions"] = acc.get("cf_sessions", 0) + 1
+    for v in variants:
+        got = exec_session(ctx, acc, sess, v, "config-" + v)
+        if v == "clock" or base is None or got is None:
+            continue
+        if sess["hostile"]:
+            acc["cf_sessions_without_differential"] = acc.get("cf_sessions_without_differential", 0) + 1
+            continue
+        acc["cf_differentials_%s" % v] = acc.get("cf_differentials_%s" % v, 0) + 1
+        if got != base:
+            k = 0
+            while k < min(len(got), len(base)) and got[k] == base[k]:
+                k += 1
+            runs = [o for o in sess["ops"] if o[0] == "run"]
+            mech = "result-differs-when-not-silent" if v == "verbose" else "result-differs-with-reporting-reads"
+            ctx.violation(mech + CF_MSUF,
+                          "the same session (same pipelines, same scripted stage behaviours) gave a different outcome for "
+                          "run #%d when %s" % (k, "every cascade's silent flag was inverted" if v == "verbose" else
+                                               "get_statistics/get_history/repr were called at callback entries and between runs"),
+                          {"run_number": k, "plain_execution": base[k] if k < len(base) else None,
+                           "%s_execution" % v: got[k] if k < len(got) else None,
+                           "instances": [{kk: repr(vv) for kk, vv in c.items()} for c in sess["insts"]],
+                           "slots": [{kk: repr(vv) for kk, vv in d.items()} for d in sess["slots"]],
+                           "run_operation": repr(runs[k])[:1500] if k < len(runs) else None,
+                           "operations": [repr(o)[:200] for o in sess["ops"] if o[0] != "run"][:40]})
+
+
+def case_config(ctx, n, tp):
+    rng = ctx.rng(n)
+    acc = {}
+    for _ in range(tp["cf_per"]):
+        sess = gen_session(rng, rng.randint(6, 16), 0.62)
+        run_session(ctx, acc, sess, ["verbose", "reads", "clock"])
+    flush(ctx, acc)
+
+
+def case_long(ctx, n, tp):
+    """ONE long-lived session: tp['cf_long_ops'] operations (97 % runs) on 2-3 instances used alternately."""
+    rng = ctx.rng(n)
+    acc = {}
+    sess = gen_session(rng, tp["cf_long_ops"], 0.97, long=True)
+    nruns = [0] * len(sess["insts"])
+    for o in sess["ops"]:
+        if o[0] == "run":
+            nruns[o[1]] += 1
+    got = exec_session(ctx, acc, sess, "plain" if n % 2 == 0 else "reads", "config-long")
+    if got is not None:
+        acc["cf_long_sessions"] = 1
+        acc["cf_long_session_runs"] = len(got)
+        ctx.maxc("runs_on_one_instance_in_one_session", max(nruns))
     flush(ctx, acc)
 
 
@@ -1382,8 +2343,13 @@ def case_overlap(ctx, n, tp):
         halt = rng.random() < 0.5
         maxamp = rng.choice(MAXAMPS_X)
         notify = rng.random() < 0.4
-        casc = Cascade("c19-shared", max_amplification=maxamp, halt_on_failure=halt, silent=True,
+        ov_silent = rng.random() < 0.75
+        ov_mode = rng.choice(modes())
+        casc = Cascade("c19-shared", mode=ov_mode, max_amplification=maxamp, halt_on_failure=halt, silent=ov_silent,
                        on_stage_complete=_ov_stage_complete if notify else None)
+        bump("runs_in_mode_%s" % getattr(ov_mode, "name", ov_mode))
+        if not ov_silent:
+            bump("overlap_cascades_not_silent")
         # every lock-like attribute of the instance, whatever it is called (none at all is fine too)
         nlocks = len(locks.wrap_all_locks(casc, lambda inner, nm: locks.DetectingLock(sched.SchedLock(inner, nm), nm)))
         bump("overlap_instance_locks_wrapped", nlocks)
@@ -1416,6 +2382,7 @@ def case_overlap(ctx, n, tp):
         def describe_group(g, mode, label, sc=None):
             def d():
                 w = {"halt_on_failure": halt, "max_amplification": maxamp, "shared_cascade": True,
+                     "mode": repr(ov_mode), "silent": ov_silent,
                      "stages": [{"name": m[0], "has_checkpoint": m[1], "has_on_error": m[2], "required": m[3],
                                  "amplification": m[4]} for m in meta],
                      "overlap": mode, "schedule": label,
@@ -1544,6 +2511,12 @@ def case_overlap(ctx, n, tp):
 
 # ---------------------------------------------------------------------------- driver
 def run_case(ctx, n):
+    # non-silent cascades print: stdout is a sink while a case runs
+    with quiet():
+        return _run_case(ctx, n)
+
+
+def _run_case(ctx, n):
     tp = tier_params(ctx.tier)
     ns, _ = n_sweep_cases(tp)
     if n < ns:
@@ -1559,6 +2532,11 @@ def run_case(ctx, n):
         return case_twin_sweep(ctx, n3, tp)
     if n3 < ntw + tp["tw_rand_cases"]:
         return case_twin_random(ctx, n, tp)
+    n4 = n3 - ntw - tp["tw_rand_cases"]
+    if n4 < tp["cf_long_cases"]:
+        return case_long(ctx, n, tp)
+    if n4 < tp["cf_long_cases"] + tp["cf_cases"]:
+        return case_config(ctx, n, tp)
     # last block on purpose: the statement-level scheduler hook on the Cascade class is installed only from here on
     return case_overlap(ctx, n, tp)
 
